@@ -102,6 +102,26 @@ CHECKS = {
         "assumptions": COMMON_ASSUMPTIONS + ["Schedules are those the OS and tokio produce under stress plus seeded delays at hook H4's schedule points; no claim of schedule coverage.",
                                              "Real-time visibility and atomic-visibility clauses are evaluated in wait-confirmation mode only (the statement restricts them to it)."],
     },
+    "C13": {
+        "level": "exploration",
+        "budget": {"quick": 40, "thorough": 600},
+        "min_histories": {"quick": 10000, "thorough": 300000},
+        "unit": "generated command rounds + differential histories + hostile-frame histories",
+        "required_events": ["differential_history", "hostile_history", "hostile_frame_error_reply", "hostile_connection_closed", "hostile_member_connection_cleaned_up"],
+        "min_events": {"quick": {"differential_history": 8, "hostile_history": 8}, "thorough": {"differential_history": 150, "hostile_history": 150}},
+        "rule": ("(a) Generated rounds: one structure-aware value of each of the 45 SDK commands (numeric/named identifiers of length 1,2,3,..,255, every partitioning kind, polling strategy, "
+                 "header value kind, optional fields present/absent, nested permission tables, boundary numbers) is encoded with the SDK's to_bytes, framed, decoded by the server's "
+                 "ServerCommand::from_bytes (hook H6) under catch_unwind, compared for equality with the original and validated on both sides; the same values go through the journal "
+                 "encoding (19 EntryCommand kinds) and the on-disk message encoding (RetainedMessage). "
+                 "(b) Differential histories on a real server: streams, topics, users (with nested permissions), groups, consumer offsets and messages with boundary values are created "
+                 "over TCP or HTTP (seeded choice) and read back over both transports by id and by name; answers must agree with each other and with what was sent. "
+                 "(c) Hostile histories: unauthenticated, permission-less and group-member connections send random bytes, short/oversized length prefixes, valid codes with random payloads, "
+                 "truncated and bit-flipped valid frames and unknown codes; each must be answered by an error or a closed connection, a healthy connection's model-checked log and the catalogue "
+                 "must stay unchanged and a dead member's group membership must disappear. evaluations = rounds + histories; distinct_nontrivial = distinct history seeds (each draws different values and frames)."),
+        "assumptions": COMMON_ASSUMPTIONS + ["The HTTP representation of a consumer carries no kind (consumer groups are a connection-oriented feature the HTTP API does not offer): group consumers are exercised over TCP only.",
+                                             "A panic confined to the hostile connection's own task counts as 'a closed connection' (reported as a note), as the statement allows.",
+                                             "Frames whose length prefix promises more bytes than are sent leave the server waiting for the rest: the hostile client then closes the socket; length prefixes above 16 MiB are not sent (allocation of the announced size is C11's/C06's resource concern, not agreement)."],
+    },
     "C09": {
         "level": "exploration",
         "budget": {"quick": 40, "thorough": 600},
@@ -188,6 +208,9 @@ MANIFEST_TEXT = {
     "C12": {"level_text": "Exploration: thousands of short concurrent producer/consumer histories with recorded call/return instants, checked offline against the final log: no loss/duplication, contiguous batches in producer order, every poll a contiguous run agreeing with the final log, short results end on batch boundaries, acknowledged sends visible to later polls (wait mode).",
             "design_ref": "DESIGN.md §4 C12", "level_note": "Trusted base: the offline checker; hook H4 schedule points with a seeded policy. Schedules are sampled, not enumerated.",
             "technique": "runtime monitoring: client-boundary history + final-log (version order) checker under stress and injected delays"},
+    "C13": {"level_text": "Exploration: structure-aware generation of every command value, encoded by the SDK and decoded by the server's own decoder (equality + validation on both sides), journal and on-disk encodings round-tripped, TCP-vs-HTTP differential reads of boundary-valued entities and messages against what was sent, and hostile malformed-frame sessions next to a model-checked healthy connection.",
+            "design_ref": "DESIGN.md §4 C13", "level_note": "Trusted base: the value generators (they decide which values count as well-formed: those the SDK's own validate() accepts) and derived PartialEq of the command types; hook H6 (re-export of the server's command decoder).",
+            "technique": "runtime monitoring: round-trip and differential oracles over generated values + client-boundary observation under malformed input"},
     "C09": {"level_text": "Rule layer: exhaustive (thorough) / sampled (quick) evaluation of the real permission rule functions over all permission records against the documented hierarchy, with isolation, monotonicity, no-residue and no-panic oracles; system layer: the handlers are observed over TCP/HTTP for unauthenticated, logged-out, deleted-user and permission-changed connections with the real rule functions as oracle.",
             "design_ref": "DESIGN.md §4 C09", "level_note": "Trusted base: PermModel (the documented hierarchy in its most permissive reading, one direction: performed => granted); fixture entities with fixed ids 1..3.",
             "technique": "runtime monitoring: exhaustive evaluation of pure rule functions + client-boundary observation of handlers"},
@@ -198,5 +221,5 @@ MANIFEST_TEXT = {
 
 NOT_APPLICABLE = [
     {"property_id": p, "reason": "check under construction in this framework (not yet claimed)"}
-    for p in ["C13", "C20"]
+    for p in ["C20"]
 ]
